@@ -388,6 +388,43 @@ pub fn generate(seed: u64, tier: &str, sink: &mut Sink) {
             }
         }
     }
+    // ---------------------------------------------------------------- (1c) a prepared request sent again
+    // T is the budget of ONE send(): a prepared request whose first send() ran into a stall (and failed with a
+    // real timeout) is sent again — at once, and after more than T has gone by — to a peer that answers
+    // promptly: that response completes well within T of its own send() and is not reported as timed out
+    // (seed C13-seed10: the deadline of a failed send kept in the prepared request).
+    {
+        let mut hs = vec![];
+        for (name, wait_ms) in [("resend-at-once-after-timeout", 0u64), ("resend-later-after-timeout", 450)] {
+            hs.push(std::thread::spawn(move || {
+                let ok = b"HTTP/1.1 200 OK\r\nContent-Length: 2\r\n\r\nok".to_vec();
+                let (port, _acc) = server(vec![vec![Srv::ReadRequest, Srv::Hold(1500)], vec![Srv::ReadRequest, Srv::Sleep(100), Srv::Send(ok), Srv::Hold(50)]]);
+                let mut prepared = match attohttpc::get(format!("http://127.0.0.1:{}/", port)).timeout(Duration::from_millis(300)).read_timeout(Duration::from_millis(5000)).connect_timeout(Duration::from_millis(1000)).try_prepare() {
+                    Ok(p) => p,
+                    Err(e) => return (name, Err(("prepare".to_string(), format!("{:?}", e.kind())))),
+                };
+                let t0 = Instant::now();
+                let first = prepared.send().and_then(|r| r.bytes());
+                let el1 = t0.elapsed().as_millis() as u64;
+                if first.is_ok() || el1 > 300 + 250 {
+                    return (name, Err((format!("late-{}", name), format!("the stalled first send(): {} ms, {:?}", el1, first.as_ref().map(|b| b.len()).map_err(|e| io_kind(e))))));
+                }
+                std::thread::sleep(Duration::from_millis(wait_ms));
+                let t1 = Instant::now();
+                let second = prepared.send().and_then(|r| r.bytes());
+                let el2 = t1.elapsed().as_millis() as u64;
+                match second {
+                    Ok(b) if b == b"ok" && el2 <= 300 + 250 => (name, Ok(())),
+                    Ok(b) => (name, Err((format!("late-{}", name), format!("second send(): {} ms, {} bytes", el2, b.len())))),
+                    Err(e) => (name, Err((format!("spurious-failure-{}", name), format!("the second send() of the prepared request, answered after 100 ms, failed after {} ms: {}", el2, io_kind(&e))))),
+                }
+            }));
+        }
+        for h in hs {
+            let (name, o) = h.join().unwrap();
+            sink.push(Case { tags: vec!["kind=stall".into(), format!("phase={}", name)], op: format!("nop {}", name), impl_line: "nop".into(), oracle: o });
+        }
+    }
     // ---------------------------------------------------------------- (2) thread / socket release
     {
         let before = thread_count();
